@@ -40,7 +40,9 @@ def _uses_uf(fs):
 
 
 QUICK_TIMEOUT = 60
-CFG = {'timeout': 60, 'cvc5_retry': True}
+# budgets are z3 resource units (deterministic: verdicts do not flip under machine load; ~1e6 units per
+# second on an idle core); the wall-clock timeout is only a backstop
+CFG = {'timeout': 1800, 'rlimit': 150000000, 'cvc5_retry': True}
 
 
 def check_unsat(fs, timeout=None, model_vars=()):
@@ -59,8 +61,10 @@ def check_unsat(fs, timeout=None, model_vars=()):
             except Exception:
                 pass
         return mv
+    rl = int(CFG['rlimit'])
     s = z3.Solver()
-    s.set('timeout', int((min(timeout, 3) if ufs else timeout) * 1000))
+    s.set('timeout', int(timeout * 1000))
+    s.set('rlimit', int(min(rl, 3000000) if ufs else rl))
     s.add(*fs)
     r = s.check()        # uninterpreted index maps: congruence only
     if r == z3.unsat:
@@ -72,6 +76,7 @@ def check_unsat(fs, timeout=None, model_vars=()):
         # that occurs in the formula (ground instances: no quantifiers)
         s = z3.Solver()
         s.set('timeout', int(timeout * 1000))
+        s.set('rlimit', rl)
         s.add(*fs)
         s.add(*ground_axioms(fs))
         r = s.check()
@@ -82,12 +87,12 @@ def check_unsat(fs, timeout=None, model_vars=()):
         # maps is re-solved with their definitions expanded at every application
         # (bounded number of wraps Q; a model found this way is genuine)
         for Q in (1, 3):
-            rs, rm = refine_uf(fs, Q, min(timeout, 30), model_vars)
+            rs, rm = refine_uf(fs, Q, timeout, model_vars)
             if rs == 'sat':
                 return 'sat', rm, time.time() - t0, 'z3+uf-expansion(Q=%d)' % Q
     # unknown: second opinion from cvc5 (quantifier-free part only)
     if CFG['cvc5_retry'] and not ufs:
-        r2 = cvc5_check(fs, timeout)
+        r2 = cvc5_check(fs, 120)
         if r2 == 'unsat':
             return 'unsat', None, time.time() - t0, 'cvc5'
     return 'unknown', {'reason': s.reason_unknown()}, time.time() - t0, 'z3'
@@ -148,6 +153,7 @@ def wrap_def(k, n, Q):
 def refine_uf(fs, Q, timeout, model_vars):
     s = z3.Solver()
     s.set('timeout', int(timeout * 1000))
+    s.set('rlimit', 30000000)
     s.add(*fs)
     for a in _apps(fs, {'ext_sym', 'wrapidx'}):
         k, n = a.arg(0), a.arg(1)
